@@ -29,7 +29,7 @@ pub const C25: Check = Check {
                    "a healthy step that does not end Updated is counted and makes the shard inconclusive if frequent, it is not a violation"],
     shards: |_| 16,
     watchdog: |t| Duration::from_secs(t.pick(600, 3600)),
-    budget: |t| Duration::from_secs(t.pick(40, 900)),
+    budget: |t| Duration::from_secs(t.pick(40, 400)),
     run: run_c25,
     crash_is_violation: true,
     finish: Some(finish_c25),
@@ -279,7 +279,7 @@ pub const C24: Check = Check {
                    "after the crash the server only moves forward (further versions / new session), as the property states"],
     shards: |_| 16,
     watchdog: |t| Duration::from_secs(t.pick(900, 7200)),
-    budget: |t| Duration::from_secs(t.pick(60, 1500)),
+    budget: |t| Duration::from_secs(t.pick(60, 500)),
     run: run_c24,
     crash_is_violation: false,
     finish: Some(finish_c24),
